@@ -9,7 +9,7 @@ from .tlaval import iter_dump, to_tla
 from .tlc import MachineryError, run_tlc
 from .traces import validate
 
-FLOW_FORMATS = ["docx", "odt", "html", "mhtml", "epub", "rtf"]
+FLOW_FORMATS = ["docx", "odt", "html", "mhtml", "epub", "rtf", "doc"]
 MULTI = {"deck": ["pptx", "odp", "odg", "ppt"], "book": ["xlsx", "ods", "xls"],
          "pages": ["pdf", "txt", "md", "csv", "tsv", "json", "rtf", "epub"]}
 
